@@ -104,6 +104,8 @@ class Evaluator:
             return self.heap.fresh_ref(base, "list")
         if n == "Opaque":
             return VOpaque(p.fresh(base, z3.IntSort()))
+        if n == "Lit":
+            return self.lift(VPy(t.args[0]))
         if n == "Obj":
             return VObj({f: self.fresh_value(ft, f"{base}.{f}") for f, ft in t.args}, base)
         raise OutOfSubset("type", repr(t))
@@ -783,6 +785,21 @@ class Evaluator:
 
     def ev_Call(self, node, env):
         f = node.func
+        # super().__getitem__(i) etc. inside a list subclass (Scope): plain list operations on self
+        if isinstance(f, ast.Attribute) and isinstance(f.value, ast.Call) and isinstance(f.value.func, ast.Name) \
+                and f.value.func.id == "super" and not f.value.args:
+            me = self.resolve_name("self", env, node)
+            if isinstance(me, VRef) and me.cls in ("Scope", "list"):
+                args = [self.ev(a, env) for a in node.args]
+                if f.attr == "__getitem__":
+                    return self.heap.subscript(me, args[0], node)
+                if f.attr == "__delitem__":
+                    self.heap.delitem(me, args[0], node, env)
+                    return VNone()
+                if f.attr == "__setitem__":
+                    self.heap.setitem(me, args[0], args[1], node, env)
+                    return VNone()
+            self.oos(node, "super() call")
         exts = self.ctx.contract.externals
         if exts and not self.pure:
             key = ast.unparse(f)
